@@ -540,6 +540,10 @@ class Sim:
                     sg["limit"], sg["offset"] = max(0, min(sg["limit"] - _k, _n)), sg["offset"] + _k
 
             return node, effect, (lambda ref: None)
+        if kind == "alias_keep":
+            # alias(keep_col_refs=True): a named subquery boundary, identities stay
+            node = w.obj("Alias", child=child, uuid_map=None)
+            return node, (lambda ref: None), (lambda ref: None)
         if kind == "alias":
             umap = {u: w.fresh("al") for u in self.cache.attrs["cols"]}
             node = w.obj("Alias", child=child, uuid_map=umap)
@@ -634,7 +638,7 @@ class Sim:
 
 
 UNARY = ("mut_ew", "mut_over", "mut_win", "mut_win_free", "mut_agg", "mut_const", "filter", "arrange", "select", "rename", "group_by", "group_by_add",
-         "ungroup", "summ_count", "summ_sum", "slice", "slice0", "alias")  # fmt: skip
+         "ungroup", "summ_count", "summ_sum", "slice", "slice0", "alias", "alias_keep")  # fmt: skip
 BINARY = ("join_cross_l", "join_cross_r", "join_inner_l", "join_inner_r", "join_left_l", "join_left_r", "join_full_l", "join_full_r", "union_l", "union_r")
 
 
@@ -743,6 +747,22 @@ class Explorer:
         if obs["grouping"] != r.grouping:
             self.add("grouping", kind, "pending grouping", seq,
                      f"after {' >> '.join(seq)} the cache reports the grouping {obs['grouping']}, the verbs' meaning gives {r.grouping}")  # fmt: skip
+        # every column object in scope carries the identity it is filed under; an alias re-roots them: new identities, bound to the
+        # alias node, names / types kept, and the derivation is cut (the aliased table may be joined with its origin)
+        cols_now = sim.cache.attrs["cols"]
+        wrong = [u for u, c in cols_now.items() if not isinstance(c, Obj) or c.attrs.get("_uuid") != u]
+        if wrong:
+            self.add("identity", kind, "column object filed under another identity", seq,
+                     f"after {' >> '.join(seq)} the scope files column objects under identities they do not carry: {wrong[:3]}")  # fmt: skip
+        if kind == "alias":
+            stale = [u for u, c in cols_now.items() if isinstance(c, Obj) and c.attrs.get("_ast") is not node]
+            if stale:
+                self.add("identity", kind, "aliased column bound to the old table", seq,
+                         f"after {' >> '.join(seq)} the columns {stale[:3]} of the aliased table are still bound to the node they came from (references taken from the alias resolve against the wrong table)")  # fmt: skip
+            older = [d for d in (sim.cache.attrs.get("derived_from") or ()) if d is not node]
+            if older:
+                self.add("identity", kind, "derivation not cut", seq,
+                         f"after {' >> '.join(seq)} the aliased table still counts as derived from {len(older)} node(s) below the alias: a self-join of the alias with its origin is refused")  # fmt: skip
         if obs["in_scope"] != set(r.cols):
             self.add("scope", kind, "columns in scope", seq,
                      f"after {' >> '.join(seq)} the columns in scope are {sorted(obs['in_scope'])}, the verbs' meaning gives {sorted(r.cols)}")  # fmt: skip
@@ -855,6 +875,7 @@ ISSUES_BY_PROPERTY = {
     "C08": ("missed-hazard", "over-eager", "alias-not-enough", "polars-subquery", "internal-error"),
     "C11": ("columns", "scope", "grouping"),
     "C10": ("parent-modified",),
+    "C16": ("identity",),
 }
 
 
@@ -907,6 +928,8 @@ def report(chk, m, rule, prop, what):
         chk.ok(rule, cache, fn, f"Polars-backed tables: {pol.stats['guard_evaluations']} guard evaluations, none asks for a subquery")
     elif prop == "C11":
         chk.ok(rule, cache, fn, f"{st['updates']} interpreted Cache.update steps: visible names / identities / grouping / scope equal the reference automaton")
+    elif prop == "C16":
+        chk.ok(rule, cache, fn, f"{st['updates']} interpreted Cache.update steps: column objects carry the identity they are filed under; alias re-roots every column in scope onto the alias node and cuts the derivation")
     else:
         chk.ok(rule, cache, fn, f"{st['updates']} interpreted Cache.update steps leave the input cache untouched")
     chk.extra_cov.setdefault("cache_typestate", {}).update({"depth": sql.depth, **st, "what": what})
